@@ -47,6 +47,7 @@ PROPS = {
     "C08": engine_prop("TestC08"),
     "C09": engine_prop("TestC09"),
     "C16": engine_prop("TestC16", quick=500, thorough=30000),
+    "C18": engine_prop("TestC18", quick=1200, thorough=80000),
     "C11": engine_prop("TestC11"),
     "C01": {
         "level": "exploration",
